@@ -248,7 +248,7 @@ func runAuthReal(c *authCase) string {
 	case 235:
 		plan = append(plan, rec.AuthStep{Done: true})
 	case 535:
-		plan = append(plan, rec.AuthStep{Err: smtp.ErrAuthFailed})
+		plan = append(plan, rec.AuthStep{Err: smtp.ErrAuthFailed, Done: len(c.Steps)%2 == 0})
 	default:
 		plan = append(plan, rec.AuthStep{Err: errors.New("backend trouble")}) // 454 4.7.0
 	}
